@@ -152,7 +152,9 @@ FAMILY: Dict[str, Dict[str, Any]] = {
     "C04": dict(
         shapes=lambda tier: shp.quick_shapes(), plans=lambda tier: P_EDIT if tier == "quick" else P_EDIT_THOROUGH,
         variants=lambda tier: [_v("local", "local", ["one", "split"], "from", 0.5 if tier == "quick" else 1.0),
-                               _v("local", "local+lru", ["split"], "from_as", 0.25 if tier == "quick" else 1.0)],
+                               _v("local", "local+lru", ["split"], "from_as", 0.25 if tier == "quick" else 1.0),
+                               # the Databricks store over the in-process fake of dbutils.fs (commit type full)
+                               _v("local", "dbfs", ["one"], "from", 0.25 if tier == "quick" else 1.0)],
         oracle=oracles.c04, loads=True, store_kw=True, protocol=True, repo_tests=True, spec_refines_protocol=True,
         nontrivial=lambda hist: any(len(r["served"]) > 0 for r in [x for x in hist if x["op"] == "eval"][1:]),
         rule="history as C01; every evaluation is followed by a second process loading every committed path; "
